@@ -877,8 +877,7 @@ class Interp:
 
     def st_While(self, s, env):
         frame = self.frames[-1]
-        ordinal = frame.loop_ordinal
-        frame.loop_ordinal += 1
+        ordinal = self.loop_ordinal(frame.func, s)
         spec = self.loop_specs.get((frame.func.qualname, ordinal))
         if spec is None:
             # unroll while concrete
@@ -904,8 +903,7 @@ class Interp:
 
     def st_For(self, s, env):
         frame = self.frames[-1]
-        ordinal = frame.loop_ordinal
-        frame.loop_ordinal += 1
+        ordinal = self.loop_ordinal(frame.func, s)
         spec = self.loop_specs.get((frame.func.qualname, ordinal))
         it = self.eval_expr(s.iter, env)
         items = self.bm.concrete_iter(self, it)
@@ -923,6 +921,25 @@ class Interp:
         if spec is None:
             raise Unsupported(f"for loop #{ordinal} of {frame.func.qualname} over symbolic iterable needs an invariant (line {s.lineno})")
         self.bm.run_invariant_loop(self, s, env, spec, frame, ordinal, kind="for", iterable=it)
+
+    def loop_ordinal(self, func, stmt):
+        """syntactic ordinal (source order) of a loop statement within its function;
+        loops of nested function definitions are not counted"""
+        cache = getattr(func, "_loop_ids", None)
+        if cache is None:
+            cache = {}
+
+            def walk(node):
+                for ch in ast.iter_child_nodes(node):
+                    if isinstance(ch, (ast.FunctionDef, ast.Lambda, ast.ClassDef)):
+                        continue
+                    if isinstance(ch, (ast.For, ast.While)):
+                        cache[id(ch)] = len(cache)
+                    walk(ch)
+
+            walk(func.node)
+            func._loop_ids = cache
+        return cache[id(stmt)]
 
     # ------------------------------------------------------------------ term-mode (if-converted) execution
     def exec_block_term(self, stmts, env):
